@@ -7,7 +7,14 @@ def main():
     out = tempfile.mktemp(suffix=".xml", prefix="verif-junit-")
     env = dict(os.environ); env.pop("SKOPS_VERIF", None)
     cmd = base["cmd"].replace("<file>", out)
+    untracked = lambda: set(subprocess.run("git -C /repo ls-files --others --exclude-standard", shell=True, capture_output=True, text=True).stdout.split("\n")) - {""}
+    before = untracked()
     subprocess.run(cmd, shell=True, env=env, stdout=subprocess.DEVNULL, stderr=subprocess.DEVNULL)
+    for f in untracked() - before:          # files the suite's doc tests drop into the working directory
+        try:
+            os.unlink(os.path.join("/repo", f))
+        except OSError:
+            pass
     passed = set()
     for tc in ET.parse(out).getroot().iter("testcase"):
         if not any(ch.tag in ("failure", "error", "skipped") for ch in tc):
